@@ -461,6 +461,7 @@ fn translate_block(
                 | capstone::mips_insn::MIPS_INS_BEQZ
                 | capstone::mips_insn::MIPS_INS_BGEZ
                 | capstone::mips_insn::MIPS_INS_BGTZ
+                | capstone::mips_insn::MIPS_INS_BLEZ
                 | capstone::mips_insn::MIPS_INS_BLTZ
                 | capstone::mips_insn::MIPS_INS_BNE
                 | capstone::mips_insn::MIPS_INS_BNEZ
@@ -472,6 +473,19 @@ fn translate_block(
                 | capstone::mips_insn::MIPS_INS_JALR
                 | capstone::mips_insn::MIPS_INS_JR => {
                     if bytes.len() == DEFAULT_TRANSLATION_BLOCK_BYTES && offset + 8 >= bytes.len() {
+                        successors.push((address + offset as u64, None));
+                        break;
+                    }
+                    // The bytes end before the delay slot. End the block in
+                    // front of the branch, so that the branch is lifted
+                    // together with its delay slot from its own address.
+                    if offset + 8 > bytes.len() {
+                        if offset == 0 {
+                            return Err(Error::Custom(format!(
+                                "No bytes for the delay slot of the branch at 0x{:x}",
+                                instruction.address
+                            )));
+                        }
                         successors.push((address + offset as u64, None));
                         break;
                     }
